@@ -48,15 +48,16 @@ ASSUMPTIONS = [
 ]
 PLAN = {'quick': dict(workers=4, timeout_s=900), 'thorough': dict(workers=12, timeout_s=3000)}
 MIN_EVENTS = {
-    'quick': {'oracle:attn.decode_vs_whole': 200, 'oracle:attn.cache_index': 200, 'oracle:attn.cache_rows_frozen': 150,
-              'oracle:attn.weights': 100, 'oracle:attn.noninterference': 80, 'oracle:attn.mask_helper': 100,
-              'oracle:rnn.outputs': 300, 'oracle:rnn.final_carry': 120, 'oracle:rnn.noninterference': 100,
-              'oracle:cell.recurrence': 300, 'oracle:xapi.attention': 30, 'oracle:xapi.lstm': 8, 'oracle:bidir.outputs': 20,
-              'oracle:rnn.seq_lengths_multi_batch_dims': 40},
-    'thorough': {'oracle:attn.decode_vs_whole': 1500, 'oracle:attn.cache_index': 1500, 'oracle:attn.weights': 800,
-                 'oracle:attn.noninterference': 600, 'oracle:rnn.outputs': 8000, 'oracle:rnn.final_carry': 3000,
-                 'oracle:rnn.noninterference': 3000, 'oracle:cell.recurrence': 8000, 'oracle:xapi.attention': 200,
-                 'oracle:xapi.lstm': 100, 'oracle:bidir.outputs': 200, 'oracle:rnn.seq_lengths_multi_batch_dims': 1000},
+    'quick': {'oracle:attn.decode_vs_whole': 200, 'oracle:attn.cache_index': 250, 'oracle:attn.cache_rows_frozen': 200, 'cache_observed': 250,
+              'oracle:attn.weights': 130, 'oracle:attn.noninterference': 200, 'oracle:attn.mask_helper': 200,
+              'oracle:rnn.outputs': 450, 'oracle:rnn.final_carry': 140, 'oracle:rnn.noninterference': 200,
+              'oracle:cell.recurrence': 450, 'oracle:xapi.attention': 120, 'oracle:xapi.lstm': 10, 'oracle:bidir.outputs': 40,
+              'oracle:rnn.seq_lengths_multi_batch_dims': 80},
+    'thorough': {'oracle:attn.decode_vs_whole': 2000, 'oracle:attn.cache_index': 2500, 'oracle:attn.cache_rows_frozen': 2000,
+                 'oracle:attn.weights': 1500, 'oracle:attn.noninterference': 2500, 'oracle:rnn.outputs': 20000,
+                 'oracle:rnn.final_carry': 8000, 'oracle:rnn.noninterference': 9000, 'oracle:cell.recurrence': 20000,
+                 'oracle:xapi.attention': 1200, 'oracle:xapi.lstm': 500, 'oracle:bidir.outputs': 600,
+                 'oracle:rnn.seq_lengths_multi_batch_dims': 3000},
 }
 
 F5 = 'rnn.seq_lengths_multi_batch_dims:raises'            # documented seq_lengths of shape (*batch), >= 2 batch dims, carry requested
